@@ -175,6 +175,50 @@ theorem C02_client_sees_script_response_single [BEq α] [LawfulBEq α] (c : Cfg 
       carried_of _ _ (fun k hk => (C08.C08_preserved_response sc.initMd k (protocolNames_reserved k hk).1).2)
     simp [clientReceive, hobs, didOf, he, sawOf, Spec.Call.clientOk, hone, hfin, hc]
 
+/-- **A single-response client facing a handler that streams: the final error is not lost.**  A server may
+answer a unary / client-streaming call with HEADERS, any number of messages and then an ERROR status in the
+TRAILERS (what a tonic streaming handler produces, and what other gRPC servers produce for a unary call that
+fails after writing output).  For EVERY such script (any initial metadata, `k ≥ 0` messages, any non-OK code,
+message text, details, metadata) and EVERY delivery allowed by the transport relation, `Grpc::unary` /
+`client_streaming` fail with the handler's code, message and details and every custom metadata entry of the
+status — when no message preceded the error, apart from the names the response headers also carry (the client
+merges the headers into the status there: C08's subject, finding C08-F1).  `body.trailers().await?` — the
+drain after the first message — is where the error surfaces; a `trailers()` that swallows the stream's error
+(seed C02f) turns the call into a success. -/
+theorem C02_single_client_sees_streamed_error [BEq α] [LawfulBEq α] (c : Cfg α) (laws : CodecLaws c.cd)
+    (sc : Script α) (ok : ScriptOk c.cd sc) (he : sc.early = none) (st : FSt) (hf : sc.final = some st)
+    (ns : Nat) (hns : sc.body.length + 2 < ns)
+    (d : RespDelivery) (htr : RespTransports (handlerResponse c ns true sc) d)
+    (hfuel : d.chunks.length + 1 + sc.body.msgs.length < c.fuel) :
+    Spec.Call.clientOkMixed (didOf sc) (sawOf (clientReceive c false d)) = true := by
+  have hlen := handlerSrc_len true sc
+  obtain ⟨st', _, hsame, hobs⟩ := clientSingle_sees_streamed_error c laws sc st he hf ok ns (by omega) d htr hfuel
+  obtain ⟨h1, h2, h3, h4⟩ := hsame
+  have hcode := code_ne_zero st (ok.final st hf).1
+  simp only [clientReceive, Bool.false_eq_true, ↓reduceIte, hobs, didOf, he, hf, Option.map_some, sawOf,
+    Spec.Call.clientOkMixed, hcode, Bool.true_and, Bool.and_eq_true, beq_iff_eq, List.all_eq_true,
+    Bool.or_eq_true, List.contains_iff_mem, Bool.not_eq_true']
+  by_cases hnil : sc.body.msgs = []
+  · simp only [hnil, ↓reduceIte, specSt, h1, h2, h3, true_and, List.isEmpty_nil, and_true]
+    intro k _
+    by_cases hk : k ∈ Spec.Call.protocolNames
+    · exact Or.inl (Or.inl hk)
+    · have hw : HMap.getAll k (Metadata.responseWire sc.initMd) = HMap.getAll k sc.initMd :=
+        (C08.C08_preserved_response sc.initMd k (protocolNames_reserved k hk).1).1
+      by_cases hem : HMap.getAll k sc.initMd = []
+      · refine Or.inr ?_
+        rw [Status.getAll_extend', hw, hem]
+        simpa using h4 k hk
+      · refine Or.inl (Or.inr ?_)
+        cases hh : HMap.getAll k sc.initMd with
+        | nil => exact absurd hh hem
+        | cons _ _ => rfl
+  · simp only [hnil, ↓reduceIte, specSt, h1, h2, h3, true_and]
+    intro k _
+    by_cases hk : k ∈ Spec.Call.protocolNames
+    · exact Or.inl (Or.inl hk)
+    · exact Or.inr (h4 k hk)
+
 /-! ## the four call shapes, end to end
 
 caller → client `Grpc` → ANY request delivery → server `Grpc` → handler script → ANY response
@@ -376,6 +420,16 @@ example : Spec.Call.clientOk true (didOf exScript) (.stream exD.headers [[1, 2],
 example : Spec.Call.handlerOk true exScript.reads ⟨exReq.md, exReq.msgs.msgs⟩ (gotOf (serve exCfg 6 true true exScript exRd).1) = true ∧
     Spec.Call.clientOk true (didOf exScript) (sawOf (clientReceive exCfg true exD)) = true :=
   C02_client_sees_script_bidi exCfg exLaws exReq exRequestOk exScript exScriptOk 5 6 exRd exD exBudget exReqT exRespT
+
+/- the hypotheses of the mixed-shape theorem hold of the same script and delivery (two messages, then
+DATA_LOSS with details and metadata), and the oracle is not trivially true: success, another code, or a
+status that lost an entry are all rejected -/
+example : Spec.Call.clientOkMixed (didOf exScript) (sawOf (clientReceive exCfg false exD)) = true :=
+  C02_single_client_sees_streamed_error exCfg exLaws exScript exScriptOk rfl exSt rfl 6 (by decide) exD
+    (by decide) (by decide)
+example : Spec.Call.clientOkMixed (didOf exScript) (.single exD.headers [1, 2]) = false := by decide
+example : Spec.Call.clientOkMixed (didOf exScript) (.failed { specSt exSt with code := 2 }) = false := by decide
+example : Spec.Call.clientOkMixed (didOf exScript) (.failed { specSt exSt with metadata := [] }) = false := by decide
 
 /-! ## what fails without the `grpc-encoding` guard
 
